@@ -41,6 +41,8 @@ const (
 	c20VUnknownKey
 	c20VEntryEmptyList // array-only sections: cluster list + a node entry that sets an EMPTY list
 	c20VEntryNoList    // ... the same configuration, the entry does not set the list at all (differs from the former only in nil vs empty)
+	c20VTrailing       // a complete, well-formed value (partial2) followed by a stray closing brace: not a JSON document (a streaming decoder would adopt the value: seed C20-6)
+	c20VEarlyClose     // an object closed too early: "{}" followed by the rest of partial1
 	c20NumV
 )
 
@@ -97,6 +99,8 @@ func c20Variants(s *c20Section) []c20Variant {
 	vs[c20VFull] = c20GoodVariant("full", full)
 	vs[c20VMalformed] = c20Variant{Name: "malformed", Class: "unparsable", Text: vs[c20VP1].Text[:len(vs[c20VP1].Text)-1]} // closing brace cut off
 	vs[c20VWrongArray] = c20Variant{Name: "wrongshape-array", Class: "unparsable", Text: `[1,2]`}
+	vs[c20VTrailing] = c20Variant{Name: "trailing-brace", Class: "unparsable", Text: vs[c20VP2].Text + "}"}
+	vs[c20VEarlyClose] = c20Variant{Name: "closed-too-early", Class: "unparsable", Text: "{}," + vs[c20VP1].Text[1:]}
 	deep := c20SectionObj(s, p2trees, [2]int{1, 2})
 	deep[s.EntriesKey] = map[string]any{"oops": 1} // an object where the list of node entries belongs
 	vs[c20VWrongDeep] = c20Variant{Name: "wrongshape-entries-object", Class: "unparsable", Text: c20Text(deep)}
@@ -314,9 +318,9 @@ func c20SectionsPart(env *mc.Env) {
 	for i, s := range secs {
 		vars[i] = c20Variants(s)
 	}
-	use := []int{c20VAbsent, c20VEmpty, c20VP1, c20VFull, c20VMalformed, c20VWrongDeep}
+	use := []int{c20VAbsent, c20VEmpty, c20VP1, c20VFull, c20VMalformed, c20VWrongDeep, c20VTrailing}
 	if env.Thorough() {
-		use = []int{c20VAbsent, c20VEmpty, c20VP1, c20VP2, c20VFull, c20VMalformed, c20VWrongArray, c20VWrongDeep, c20VWrongLeaf, c20VNull, c20VUnknownKey}
+		use = []int{c20VAbsent, c20VEmpty, c20VP1, c20VP2, c20VFull, c20VMalformed, c20VWrongArray, c20VWrongDeep, c20VWrongLeaf, c20VNull, c20VUnknownKey, c20VTrailing, c20VEarlyClose}
 	}
 	dims := []int{2}
 	for range secs {
@@ -475,7 +479,7 @@ func c20HistParts(env *mc.Env) map[string]func() *mc.BFS {
 			}
 			events = append(events, c20Event{Name: "configmap-deleted", Delete: true})
 			return c20HistBFS(env, "hist-focus-"+fs.Name, events, vars, env.Pick(4, 6),
-				fmt.Sprintf("BFS over histories of ConfigMap events; an event gives section %s one of %d states (absent, {}, null, unknown key, partial1, partial2, full, malformed, 3 wrong shapes) and all other sections one of {absent, partial1, partial2}, or deletes the ConfigMap; after every event all 5 sections of all 3 nodes are judged; state = handler cache + reference", fs.Name, c20NumV))
+				fmt.Sprintf("BFS over histories of ConfigMap events; an event gives section %s one of %d states (absent, {}, null, unknown key, partial1, partial2, full, malformed (cut off / trailing brace / closed too early), 3 wrong shapes) and all other sections one of {absent, partial1, partial2}, or deletes the ConfigMap; after every event all 5 sections of all 3 nodes are judged; state = handler cache + reference", fs.Name, c20NumV))
 		}
 	}
 	parts["hist-cross"] = func() *mc.BFS {
